@@ -227,10 +227,16 @@ def selftest_poly():
 
 _EVP, _NUP, _POP = EvProxy(), NumericProxy(), PolyProxy()
 
-def sym_compile(expr, **kw):
+def sym_compile(expr, object_constants=False, **kw):
+    '''object_constants: float/complex array constants of the script become object arrays as well, so that views of cached constant intermediates
+    alias their buffers exactly as in production (needed where aliasing between calls is the subject: C03)'''
     kw.setdefault('cache_const_intermediates', False)
     f = ev.compile(expr, **kw)
     g = f.__globals__
+    if object_constants:
+        for k, v in list(g.items()):
+            if k.startswith('c') and isinstance(v, numpy.ndarray) and v.dtype.kind in 'fc' and v.ndim:
+                g[k] = SArray.wrap(v)
     g['numpy'] = npproxy
     g['evaluable'] = _EVP
     g['numeric'] = _NUP
